@@ -6,6 +6,8 @@
                         at corresponding places related by R at_start at_end (comments are part of the runs, so R decides how far
                         they may differ; the instance used by Properties/C10.v relates two runs whose texts agree after the
                         line-end / tab normalisation and the removal of blanks at the edges of lines)
+     formatted_as G     ts' is spelled as the reference formatting of ts: the same significant tokens, and the joined codes of every run
+                        of ts' are what G makes of the run of ts at the same place ("already formatted code")
      ref_fmt G          the formatter the property describes, as a function of the token list: every significant token is written
                         with its own code; the run in front of a token is rewritten by G knowing only whether it begins the file,
                         whether it ends the file and the number of blocks and brackets open at the token (the depth rules of
@@ -56,4 +58,18 @@ Fixpoint ref_body (st : dstate) (l : list (token * list token)) : list Z :=
 Definition ref_fmt (ts : list token) : list Z :=
   let '(r0, l) := segs ts in
   G true (is_nilb l) (next_depth (mk_dstate 0 0) l) r0 ++ ref_body (mk_dstate 0 0) l.
+
+Fixpoint spelled_body (st : dstate) (l l' : list (token * list token)) : Prop :=
+  match l, l' with
+  | [], [] => True
+  | (t, r) :: l1, (t', r') :: l1' =>
+      let st' := tok_depth_after st t in
+      t' = t /\ flat_map tcode r' = G false (is_nilb l1) (next_depth st' l1) r /\ spelled_body st' l1 l1'
+  | _, _ => False
+  end.
+
+Definition formatted_as (ts ts' : list token) : Prop :=
+  let '(a, l) := segs ts in
+  let '(a', l') := segs ts' in
+  flat_map tcode a' = G true (is_nilb l) (next_depth (mk_dstate 0 0) l) a /\ spelled_body (mk_dstate 0 0) l l'.
 End Ref.
